@@ -342,13 +342,37 @@ func (g *Gen) setup(withContracts bool) {
 		}
 		w.Init(id, sc)
 	}
-	for i := 2; i >= 0; i-- {
+	for i := 2; i >= 1; i-- {
 		install(i, nInit)
 	}
+	// K0 is never a callee of other code; it alone may use AUTH/AUTHCALL (the authority's nonce is
+	// baked into its code before every block, so it runs at most once per block)
+	sc := g.script(0, contracts[0], nInit, false)
+	if g.r.Bool() {
+		var to common.Address
+		switch g.r.Intn(3) {
+		case 0:
+			to = g.pickEOA()
+		case 1:
+			to = contracts[1+g.r.Intn(4)]
+		default:
+			to = outsiders[0]
+		}
+		ac := Act{Kind: "ac", To: to, Val: g.smallValue(eoas[g.r.Intn(len(eoas))])}
+		pos := 0
+		if len(sc) > 0 {
+			pos = g.r.Intn(len(sc))
+		}
+		sc = append(sc[:pos], append(Script{ac}, sc[pos:]...)...)
+	}
+	for w.scriptCost(sc, 0) > maxScriptCost {
+		sc = sc[:len(sc)-1]
+	}
+	w.Code(contracts[0], sc)
 }
 
 func (g *Gen) gasLimitStr(codeless bool) string {
-	switch g.r.Intn(14) {
+	switch g.r.Intn(24) {
 	case 0:
 		return "1000" // below intrinsic gas
 	case 1:
@@ -480,7 +504,18 @@ func orderSafe(w *World, src common.Address, ts []Target) []Target {
 func (g *Gen) contractTx(first bool) {
 	w := g.w
 	c := CtSpec{Src: g.pickEOA()}
-	if g.r.Chance(1, 15) {
+	if g.r.Chance(3, 4) {
+		// prefer a sender that can pay for gas
+		var rich []common.Address
+		for _, a := range eoas {
+			if w.adb.GetBalance(a).Cmp(rpg(2)) >= 0 {
+				rich = append(rich, a)
+			}
+		}
+		if len(rich) > 0 {
+			c.Src = rich[g.r.Intn(len(rich))]
+		}
+	} else if g.r.Chance(1, 4) {
 		c.Src = g.pickAddr()
 	}
 	bal := w.adb.GetBalance(c.Src)
@@ -514,6 +549,14 @@ func (g *Gen) contractTx(first bool) {
 	default:
 		t := contracts[g.r.Intn(len(contracts))]
 		c.Target = &t
+	}
+	if c.Target != nil && w.authC != nil && *c.Target == *w.authC {
+		if w.authUsed {
+			t := contracts[1+g.r.Intn(4)]
+			c.Target = &t
+		} else {
+			w.authUsed = true
+		}
 	}
 	codeless := c.Target != nil && len(w.codes[*c.Target]) == 0
 	if c.Target != nil && g.r.Bool() && !codeless {
